@@ -40,9 +40,26 @@ def gen_file(rng, small=False):
     if rng.random() < 0.3:
         e.permute(rng)
     data, meta = e.build(rng, pad=rng.choice([0, 0, 0, 8, 64]))
+    if rng.random() < 0.2:
+        data = relink(rng, data, meta)
     if rng.random() < 0.35:
         data = filegen.corrupt(rng, data, meta)
     return data, meta, info
+
+
+def relink(rng, data, meta):
+    """each linking section names its own string table: re-point sh_link of the symbol, version and dynamic sections at
+    another string-table section (sometimes at any index)"""
+    o = fileq.py_open("any", data)
+    hs = fileq.py_shdrs(o, data) if o else None
+    if not hs:
+        return data
+    strtabs = [k for k, h in enumerate(hs) if h and h["sh_type"] == 3]
+    for k, h in enumerate(hs):
+        if h and h["sh_type"] in (2, 11, 6, 0x6ffffffd, 0x6ffffffe, 0x6fffffff) and rng.random() < 0.5:
+            tgt = rng.choice(strtabs) if strtabs and rng.random() < 0.8 else rng.randrange(0, len(hs) + 1)
+            data = elfgen.patch(data, meta, "shdr", "sh_link", tgt, k)
+    return data
 
 
 def history(rng, data, meta, info, nq):
@@ -170,3 +187,20 @@ def covering_variant(rng, data, meta):
     qs = ["symtab", "dynsym", "symver 0 1 2", "symtab", "dynsym"]
     rng.shuffle(qs)
     return d2, qs
+
+
+def version_link_variant(rng, data, meta, info):
+    """.gnu.version_d and .gnu.version_r naming different string tables (each through its own sh_link); all version
+    indexes queried. Returns (data, queries) or None"""
+    o = fileq.py_open("any", data)
+    hs = fileq.py_shdrs(o, data) if o else None
+    if not hs:
+        return None
+    strtabs = [k for k, h in enumerate(hs) if h and h["sh_type"] == 3]
+    vs = [k for k, h in enumerate(hs) if h and h["sh_type"] in (0x6ffffffd, 0x6ffffffe)]
+    if len(strtabs) < 2 or not vs:
+        return None
+    k = rng.choice(vs)
+    others = [t for t in strtabs if t != hs[k]["sh_link"]]
+    d2 = elfgen.patch(data, meta, "shdr", "sh_link", rng.choice(others) if rng.random() < 0.85 else len(hs) + 3, k)
+    return d2, ["symver " + " ".join(str(i) for i in range(info.get("nversyms", 3) + 2))]
